@@ -7,7 +7,8 @@ Tolerances (stated once; calibrated on the unchanged tree, see notes/C11.md):
   density matrix trace                 |tr - 1|              <= 1e-9   (observed <= 4e-15; 2e-3 for V2's average of
                                                                         unnormalised kets in the stochastic branch)
   density matrix hermiticity           max|rho - rho^+|      <= 1e-9   (observed <= 2e-15)
-  density matrix positivity            min eigenvalue        >= -1e-5  (observed >= -2.3e-7)
+  density matrix positivity            min eigenvalue        >= -1e-4  (observed >= -2.3e-7 on the legacy path,
+                                                                        -1.01e-5 on V2, whose solver runs without max_step)
   Rabi populations (interior times)    |p - sin^2(Om t / 2)| <= 1e-3   (observed <= 2.3e-5; after an idle period,
                                                                         final time: max(1e-3, 1.2e-3*Om), observed ratio <= 0.07)
   zero drive                           max|psi_t - psi_0|    <= 1e-9
@@ -29,7 +30,7 @@ from harness.framework import Violation
 TOL_NORM = 1e-3
 TOL_TRACE = 1e-9
 TOL_HERM = 1e-9
-TOL_POS = 1e-5
+TOL_POS = 1e-4
 TOL_RABI = 1e-3
 TOL_ZERO = 1e-9
 TOL_STATE = 2e-3
@@ -161,13 +162,19 @@ def sampling_checks(case, n, state: qutip.Qobj, res_obj, meas, matching, eig, vi
     return st, w, r
 
 
-def run_emu(case):
+def run_emu(case0):
     viols: list[Violation] = []
     checks: list[dict] = []
-    info = dict(kind="emu", family=case.get("family"), nontrivial=False)
+    info = dict(kind="emu", family=case0.get("family"), nontrivial=False)
+    # the legacy emulator is given the noise the V2 backend is REQUIRED to use
+    # (the device's default noise model only if the configuration prefers it);
+    # V2 itself gets the configuration, the flag and the device
+    case = dict(case0, noise=I.effective_noise(case0))
+    info["device_noise"] = bool(case0.get("device_noise"))
+    info["prefer"] = bool(case0.get("prefer"))
 
     def bad(sig, what, detail=None):
-        viols.append(Violation(sig, what, case, detail))
+        viols.append(Violation(sig, what, case0, detail))
 
     try:
         seq = I.build_sequence(case)
@@ -306,9 +313,10 @@ def run_emu(case):
             if worst > tol:
                 bad("rabi-oscillation" if fam == "rabi" else "idle-then-pulse",
                     f"population of the one state deviates from sin^2(Omega t/2) by {worst:.3g} (Omega={om:.4g}, pulse of {p['dur']} ns starting at {t0} ns)")
-        if fam == "zero":
-            init = emu.initial_state.full()
-            worst = max(float(np.abs(s.full() - init).max()) for s in states)
+        if fam == "zero" and "depolarizing_rate" not in (case.get("noise") or {}):
+            # (a depolarizing channel, if one is really configured, acts on the ground state too)
+            init = I.qobj_dm(emu.initial_state)
+            worst = max(float(np.abs(I.qobj_dm(s) - init).max()) for s in states)
             if worst > TOL_ZERO:
                 bad("zero-drive-changes-state", f"an all-zero drive moved the state by {worst:.3g}")
         if fam == "pilocal":
@@ -351,7 +359,7 @@ def run_emu(case):
                 break
 
     # ---- V2 backend on the same sequence and configuration
-    V = I.run_v2(case, seq)
+    V = I.run_v2(case0, seq)
     info["v2_ok"] = V["ok"]
     v2 = case.get("v2") or {}
     default = v2.get("default", [1.0])
@@ -384,6 +392,16 @@ def run_emu(case):
                  trace_tol=2 * TOL_NORM if (stochastic and not dissipative) else TOL_TRACE)
         if any(v.signature.startswith("v2:") for v in viols):
             break
+    if not stochastic and not dissipative:
+        # no noise is configured (and none preferred from the device): the
+        # emulated state is a pure state
+        for lab, qs in zip(V["labels"], V["states"]):
+            rho = I.qobj_dm(qs._state)
+            pur = float(np.real(np.trace(rho @ rho)))
+            if pur < 1 - 4 * TOL_NORM:
+                bad("v2:mixed-state-without-noise",
+                    f"V2 returns a state of purity {pur:.4f} at relative time {lab} although no noise is configured")
+                break
     if stochastic:
         # the state V2 reports must be the reps-weighted average of the states
         # of the noisy runs: recompute it with the legacy machinery from the
@@ -458,6 +476,11 @@ def run_emu(case):
     except Exception as e:  # noqa: BLE001
         bad(f"v2-state-api-raises:{type(e).__name__}", f"QutipState API failed on the emulated state: {e}")
 
+    if case.get("family") == "zero" and not stochastic and "depolarizing_rate" not in nz:
+        init_dm = I.qobj_dm(L["emu"].initial_state)
+        worst0 = max(float(np.abs(I.qobj_dm(qs._state) - init_dm).max()) for qs in V["states"])
+        if worst0 > TOL_ZERO:
+            bad("v2-zero-drive-changes-state", f"an all-zero drive moved the V2 state by {worst0:.3g}")
     # ---- legacy vs V2: same states at the same times (a stochastic noise
     # model draws different random detunings / amplitudes / bad atoms in the
     # two runs: only physicality is checked there)
@@ -822,8 +845,72 @@ def run_hist(case):
     return dict(info=info, checks=checks), viols
 
 
+# ------------------------------------------------------------------ joint flips
+def run_flip(case):
+    viols: list[Violation] = []
+    checks: list[dict] = []
+
+    def bad(sig, what, detail=None):
+        viols.append(Violation(sig, what, case, detail))
+
+    from pulser_simulation.simresults import CoherentResults
+
+    n, idx, pfp, pfn, N = case["n"], case["index"], case["pfp"], case["pfn"], case["shots"]
+    # basis state number idx of n two-level atoms in the (r, g) basis: r reads 1
+    ket = qutip.basis([2] * n, [int(c) for c in np.binary_repr(idx, width=n)])
+    bits_in = "".join("1" if c == "0" else "0" for c in np.binary_repr(idx, width=n))  # digit 0 = r
+    info = dict(kind="flip", nontrivial=True, n=n, input=bits_in)
+
+    def expected(b):
+        p = 1.0
+        for a, o in zip(bits_in, b):
+            rate = pfn if a == "1" else pfp
+            p *= rate if a != o else 1 - rate
+        return p
+
+    def judge(cnt, who):
+        for k in range(2**n):
+            b = np.binary_repr(k, width=n)
+            p = expected(b)
+            f = cnt.get(b, 0) / N
+            if abs(f - p) > 6 * math.sqrt(p * (1 - p) / N) + 1.0 / N:
+                bad(f"{who}detection-flip-joint",
+                    f"reading {bits_in} with p_false_pos={pfp}, p_false_neg={pfn}: bitstring {b} has frequency {f:.3f}, independent flips give {p:.3f} ({N} shots)")
+                return
+
+    # V2
+    sobj = QutipStateOf(ket)
+    us, flips = I.draws_legacy(case["seed"], N, n)
+    I.seeded(case["seed"])
+    cnt = sobj.sample(num_shots=N, p_false_pos=pfp, p_false_neg=pfn)
+    cnt = Counter({str(k): int(v) for k, v in cnt.items()})
+    bp = sobj.bitstring_probabilities(cutoff=1 / (1000 * N))
+    checks.append(dict(c="sample_v2", n=n, keys=[int(k, 2) for k in bp], probs=[float(x) for x in bp.values()],
+                       us=list(us), pfp=pfp, pfn=pfn, flips=list(flips.flatten()), impl=I.counter_dense(cnt, n)))
+    judge(cnt, "v2-")
+    # legacy
+    r = I.QutipResult(tuple("a%d" % i for i in range(n)), "ground-rydberg", ket, True)
+    cr = CoherentResults([r], n, "ground-rydberg", np.array([0.0]), "ground-rydberg",
+                         {"epsilon": pfp, "epsilon_prime": pfn})
+    I.seeded(case["seed"] + 1)
+    us2 = np.random.rand(N)
+    fl2 = np.random.uniform(size=(N, n))
+    I.seeded(case["seed"] + 1)
+    cnt2 = cr.sample_state(0.0, N)
+    checks.append(dict(c="sample_legacy", n=n, weights=list(np.array(r._weights(), dtype=float)), us=list(us2),
+                       eps=pfp, eps_p=pfn, flips=list(fl2.flatten()), impl=I.counter_dense(cnt2, n)))
+    judge(cnt2, "")
+    return dict(info=info, checks=checks), viols
+
+
+def QutipStateOf(ket):
+    return I.QutipState(ket, eigenstates=("r", "g"))
+
+
 def run_case(case):
     k = case.get("kind")
+    if k == "flip":
+        return run_flip(case)
     if k == "hist":
         return run_hist(case)
     if k == "emu":
